@@ -222,7 +222,7 @@ pub fn gen_f5(g: &mut Gen, valid: &[String]) -> String {
         }
         crate::sexp::parse(&valid[rng.below(valid.len())]).ok()
     };
-    match rng.below(20) {
+    match rng.below(22) {
         // ---- byte-level damage
         0 => {
             let v = &valid[rng.below(valid.len().max(1)).min(valid.len().saturating_sub(1))];
@@ -278,7 +278,7 @@ pub fn gen_f5(g: &mut Gen, valid: &[String]) -> String {
         }
         10 => {
             // duplicate declaration
-            let decls: Vec<&String> = valid.iter().filter(|v| v.starts_with("(constructor") || v.starts_with("(sort") || v.starts_with("(relation") || v.starts_with("(function") || v.starts_with("(ruleset")).collect();
+            let decls: Vec<&String> = valid.iter().filter(|v| v.starts_with("(constructor") || v.starts_with("(sort") || v.starts_with("(relation") || v.starts_with("(function") || v.starts_with("(ruleset") || v.starts_with("(rule ") || v.starts_with("(rewrite ")).collect();
             if decls.is_empty() { "(sort S0)".into() } else { decls[rng.below(decls.len())].clone() }
         }
         11 => format!("(function bad{} (i64) i64 :merge (nosuch old new))", rng.below(1000)),
@@ -308,6 +308,27 @@ pub fn gen_f5(g: &mut Gen, valid: &[String]) -> String {
             }
         }
         18 => "(pop)".to_string(),
+        19 | 20 => {
+            // a second rule under an existing name, with another head: it is refused
+            // (RuleAlreadyExists) and the rule first declared must stay in force
+            let named: Vec<Sexp> = valid
+                .iter()
+                .filter(|v| v.starts_with("(rule ") && v.contains(":name"))
+                .filter_map(|v| crate::sexp::parse(v).ok())
+                .collect();
+            match named.get(rng.below(named.len().max(1))) {
+                Some(Sexp::List(v)) if v.len() >= 3 => {
+                    let mut v = v.clone();
+                    v[2] = if rng.chance(1, 2) {
+                        Sexp::List(vec![Sexp::call("panic", vec![Sexp::atom("\"duplicate rule ran\"")])])
+                    } else {
+                        Sexp::List(vec![])
+                    };
+                    Sexp::List(v).to_string()
+                }
+                _ => format!("(rule () () :ruleset nosuchruleset{})", rng.below(10)),
+            }
+        }
         _ => {
             // shadowing: a rule variable named like a global
             let c = g.sig.ctors.iter().find(|c| c.args.is_empty()).map(|c| c.name.clone()).unwrap_or("K0".into());
